@@ -9,6 +9,9 @@ from .c04 import error_exits, real_source, _offset_stores
 from . import fmtfeat
 
 RULES = {
+    "C07.5": "recovery yields nothing that was not acknowledged (= C04.3d): a batch that fails after some of its entries reached the file returns Err, so none of its entries may "
+             "be readable after a restart; the rollback zeroes the header of EVERY planned entry (not only the first of each block), because the next acknowledged append can fill "
+             "exactly the first slot and the recovery scan then runs on into the stale, fully valid entries behind it",
     "C07.1": "ack after write (MPT over the resolved call chain): every success return of append_for_topic / batch_append_for_topic is dominated by the Ok edge of the writer call; "
              "Writer::write's Ok return by Block::write of the caller's bytes at the current offset; Block::write's Ok return by SharedMmap::write of prefix+payload at "
              "block.offset + in_block_offset; SharedMmap::write reaches a positional write on both backends; in the batch paths every planned entry is written (portable loop) or "
@@ -431,6 +434,8 @@ def run(ctx):
     check_scan(ctx, facts, rid="C07.4")
     check_entry_scan_bound(ctx, facts, rid="C07.4")
     check_open_errors(ctx, facts)
+    from .c04 import check_rollback_zeroing
+    check_rollback_zeroing(ctx, facts, rid="C07.5")
     ctx.assume("crash model of the property: completed write syscalls persist across a process crash; what recovery reconstructs from the bytes is covered only by the layout/scan clauses of C06")
     ctx.assume("the discarded result of the positional write in FdBackend::write is reported under C04.4 (known finding), not repeated here")
     return {
